@@ -105,6 +105,12 @@ fn queued_pauses(cap: Option<usize>) -> usize {
     if q2.panics() != 0 {
         fail("C11", format!("panics() = {} after an emit that followed hours of idling; the wrapped sink never panicked", q2.panics()));
     }
+    // (bounded queues: the queue has been idle for an hour when its last handle goes away - a stop request is seen however
+    // long nothing has happened; unbounded ones are dropped right after the last emit)
+    if cap.is_some() {
+        wait_for("hand-over", "C08", || q2.drained() >= 4);
+        std::thread::sleep(PAUSE);
+    }
     drop(q2);
     // the last drop releases the buffered sink, which writes what it holds: wait for the channel to disconnect
     let mut rest = Vec::new();
